@@ -126,7 +126,9 @@ def check_namelut(ctx, w):
     mk = [c for c in ast.walk(f.node) if isinstance(c, ast.Call) and dispatch.callee_name(c) == 'NameLUTEntry']
     kw = dict((k.arg, expr.nfs(k.value, env)) for k in mk[0].keywords) if mk else None
     ctx.ob('W-LUT', f.construct, 'cu_ofs = debug_info_offset; die_ofs absolute = debug_info_offset + die_ofs',
-           kw == {'cu_ofs': 'hdr_cu_ofs', 'die_ofs': expr.spec_nf('hdr_cu_ofs + die_ofs')} and tr.get('hdr_cu_ofs') == [('=', 'debug_info_offset')], got=(kw, tr.get('hdr_cu_ofs')),
+           (kw == {'cu_ofs': 'hdr_cu_ofs', 'die_ofs': expr.spec_nf('hdr_cu_ofs + die_ofs')} and tr.get('hdr_cu_ofs') == [('=', 'debug_info_offset')]) or
+           # (the latch local is an optimisation: the header field used directly is the same value)
+           (kw == {'cu_ofs': 'debug_info_offset', 'die_ofs': expr.spec_nf('debug_info_offset + die_ofs')} and tr.get('hdr_cu_ofs') is None), got=(kw, tr.get('hdr_cu_ofs')),
            msg='entry offset must be made absolute with the set\'s debug_info_offset')
     tests = [expr.cond_str(n.test, env) for n in ast.walk(f.node) if isinstance(n, ast.If)]
     ctx.ob('W-LUT', f.construct, 'set ends at die_ofs == 0', tests == [expr.spec_cond('die_ofs == 0')], got=tests)
